@@ -285,3 +285,96 @@ def cached(cx):
                 c.append(Cached(cx, inst, rule, field))
         cx.__dict__["_wrapsem_cached"] = c
     return c
+
+
+# ---------------------------------------------------------------------------- all rule wrappers
+
+USER_EXCLUDE = ("std::", "core::", "alloc::", "peginator::", "hashbrown::", "<")
+
+
+class RuleView:
+    """Semantic view of one `parse_<Rule>` wrapper: for every path that evaluates the rule body, the body event R, the value(s) M
+    built from its success (returned, stored or carried round the growth loop), the position / slice measurements and the user
+    hook calls."""
+
+    def __init__(self, cx, inst, rule):
+        self.cx, self.inst, self.rule = cx, inst, rule
+        self.tag = "%s/%s" % (inst.name, rule)
+        self.path = inst.rule_fns.get(rule)
+        self.problem = None
+        self.sm = None
+        if self.path is None:
+            self.problem = "no parse function"
+            return
+        self.body = cx.body(inst.crate, self.path)
+        self.S = rule_sem(cx, inst)
+        try:
+            self.sm = self.S.summarize(self.path)
+        except sem.SemLimit as ex:
+            self.problem = "not summarised: %s" % ex
+            return
+        if not self.sm.complete:
+            self.problem = "irreducible control flow"
+            self.sm = None
+            return
+        self.leaves = [l for l in self.sm.leaves + self.sm.loopbacks if l.kind in ("return", "loopback")]
+
+    def body_events(self, leaf):
+        out = []
+        for idx, ev in enumerate(leaf.trace):
+            t = ev[0]
+            if t[0] != "call":
+                continue
+            target = t[3] or t[1]
+            if (target in self.inst.fns or mir.strip_generics(t[1]).startswith(self.inst.prefix + "::")) and not target.startswith(self.path + "::") \
+                    and last(t[1]) not in ("clone",):
+                out.append((idx, ev))
+        return out
+
+    def user_events(self, leaf):
+        out = []
+        for idx, ev in enumerate(leaf.trace):
+            t = ev[0]
+            if t[0] != "call":
+                continue
+            p = t[1]
+            if p.startswith(USER_EXCLUDE) or mir.strip_generics(p).startswith(self.inst.prefix + "::") or (t[3] or "") in self.inst.fns:
+                continue
+            if (t[3] or p).startswith(USER_EXCLUDE):
+                continue
+            out.append((idx, ev))
+        return out
+
+    def mapped(self, leaf):
+        """[(R, X)]: X = the ParseOk value built on this path from the success of body event R (returned, inserted or carried on)."""
+        out = []
+        bes = [(i, ev) for (i, ev) in self.body_events(leaf) if semspec.discr_case(leaf, ev[0]) == 0]
+        if not bes:
+            return out
+        cands = []
+        if leaf.kind == "return" and leaf.ret is not None:
+            cands.append(leaf.ret)
+        if leaf.kind == "loopback" and leaf.ret is not None:
+            cands.extend(v for (_, v) in leaf.ret[2])
+        for ev in leaf.trace:
+            if is_call(ev[0], "insert") and len(ev[0][2]) == 3:
+                cands.append(ev[0][2][2])
+        for (i, bev) in bes:
+            R = bev[0]
+            for c in cands:
+                if c[0] == "agg" and c[2] == "Ok" and c[1] == sem.RESULT and any(s_ == R for s_ in walk(c)):
+                    X = sem.get_field(c, "0")
+                    if (R, X) not in out:
+                        out.append((R, X))
+        return out
+
+
+def rule_views(cx):
+    c = cx.__dict__.get("_wrapsem_views")
+    if c is None:
+        c = {}
+        for inst in cx.instances():
+            for rule in inst.rule_fns:
+                c[(inst.name, rule)] = RuleView(cx, inst, rule)
+        cx.__dict__["_wrapsem_views"] = c
+    return c
